@@ -123,7 +123,7 @@ func (p *Program) runHarness(name string, fn *ssa.Function, o runOpts) *HarnessR
 
 	var spawn func()
 	worker := func() {
-		solver, err := NewSolver("z3", o.timeoutMs)
+		solver, err := NewSolver(envOr("VP_SOLVER", "z3-new"), o.timeoutMs)
 		if err != nil {
 			mu.Lock()
 			res.Incon = append(res.Incon, "cannot start solver: "+err.Error())
